@@ -50,3 +50,29 @@ theorem recordAll_get (c : Counters) (events : List (List Str)) (k : List Str) :
     by_cases h : e = k <;> simp [h, List.filter_cons] <;> omega
 
 end PSA
+
+namespace PSA
+
+def lowerByte (c : Nat) : Nat := if 65 ≤ c ∧ c ≤ 90 then c + 32 else c
+/-- operationLabel -/
+def operationLabel (op : Str) : Str := op.map lowerByte
+/-- resourceLabel: group "" + resource pods / namespaces, everything else is a controller -/
+def resourceLabel (group resource : Str) : Str :=
+  if group = [] ∧ resource = b!"pods" then b!"pod"
+  else if group = [] ∧ resource = b!"namespaces" then b!"namespace"
+  else b!"controller"
+
+structure ReqLabels where
+  op : Str
+  group : Str
+  resource : Str
+  sub : Str
+
+/-- the label tuple RecordEvaluation increments -/
+def evalSeries (server : Ver) (decision : Str) (lv : LevelVersion) (mode : Str) (r : ReqLabels) : List Str :=
+  [decision, lv.level.str, versionLabel server lv, mode, operationLabel r.op, resourceLabel r.group r.resource, r.sub]
+def exemptSeries (r : ReqLabels) : List Str := [operationLabel r.op, resourceLabel r.group r.resource, r.sub]
+def errorSeries (fatal : Bool) (r : ReqLabels) : List Str :=
+  [if fatal then b!"true" else b!"false", operationLabel r.op, resourceLabel r.group r.resource, r.sub]
+
+end PSA
